@@ -596,6 +596,14 @@ nbuf_lens(hx_rng *g, int regime, int n, uint32_t unit, uint32_t maxlen, uint32_t
                 case 3:
                         v = base + (uint32_t) i * unit;
                         break;
+                case 5: /* all equal, near the maximum */
+                        v = maxlen - unit;
+                        break;
+                case 4: /* towards the documented maximum of the algorithm (wide block counters, long key streams) */
+                        v = maxlen - hx_below(g, maxlen / 5);
+                        if (i == shortest)
+                                v = maxlen - maxlen / 5 - unit * (1 + hx_below(g, 4));
+                        break;
                 default:
                         v = 1 + hx_below(g, maxlen < 700 ? maxlen : 700);
                 }
@@ -618,7 +626,7 @@ nbuf_all(hx_rng *g, int reps)
                         continue;
                 }
                 alarm(60);
-                const int n = ns[it % 13], regime = (it / 13) % 4;
+                const int n = ns[it % 13], regime = (it / 13) % 5;
                 const uint32_t unit = units[(it / 52 + it) % 5];
                 uint32_t want[32];
                 hx_job zj[32];
@@ -627,7 +635,7 @@ nbuf_all(hx_rng *g, int reps)
                         const void *keys[32], *ivs[32], *srcs[32];
                         uint32_t bits[32], tags[32], *tagp[32];
                         int st = IMB_STATUS_COMPLETED, same = 1;
-                        nbuf_lens(g, regime, n, unit, 2000, want);
+                        nbuf_lens(g, regime, n, unit, 8188, want);
                         for (int i = 0; i < n; i++) {
                                 hx_force_len = want[i];
                                 hx_spec_from_kind("+ZUCEIA3", g, &sp);
@@ -667,7 +675,7 @@ nbuf_all(hx_rng *g, int reps)
                         void *dsts[32];
                         uint32_t lens[32];
                         int st = IMB_STATUS_COMPLETED, same = 1;
-                        nbuf_lens(g, regime, n, unit, 2000, want);
+                        nbuf_lens(g, regime, n, unit, 8188, want);
                         for (int i = 0; i < n; i++) {
                                 hx_force_len = want[i];
                                 hx_spec_from_kind("ZUC128E", g, &sp);
@@ -704,7 +712,7 @@ nbuf_all(hx_rng *g, int reps)
                         void *dsts[32], *dmk[32];
                         uint32_t lens[32];
                         int st = IMB_STATUS_COMPLETED, same = 1, samemk = 1;
-                        nbuf_lens(g, regime, n, unit, 2000, want);
+                        nbuf_lens(g, regime, n, unit, 8000, want);
                         for (int i = 0; i < n; i++) {
                                 hx_force_len = want[i];
                                 hx_spec_from_kind("SNOW3GE", g, &sp);
@@ -781,7 +789,7 @@ nbuf_all(hx_rng *g, int reps)
                         void *dsts[32];
                         uint32_t lens[32];
                         int st = IMB_STATUS_COMPLETED, same = 1;
-                        nbuf_lens(g, (n == 3 || n == 4) ? 1 : regime, n, unit, 2000, want);
+                        nbuf_lens(g, (n == 3 || n == 4) ? (regime == 4 ? 5 : 1) : regime, n, unit, 2500, want);
                         for (int i = 0; i < n; i++) {
                                 hx_force_len = want[i];
                                 hx_spec_from_kind("KASUMIE", g, &sp);
